@@ -11,7 +11,16 @@ b == A("b")
 Elems == { a, A("ab"), b, A(""), I(1), I(2), Fl(2), Fl(4), V(1), V(2), C("f", <<a>>), C("f", <<V(1)>>), C("g", <<a, b>>), C("f", <<b>>), MkList(<<a>>), MkList(<<a, b>>), Nil }
 CONSTANT NL
 VARIABLES l, done
-Init == l \in UNION { [1..k -> Elems] : k \in 0..NL } /\ done = FALSE
+\* long lists with many equal keys (a sorting routine may switch algorithms with the length: stability, duplicate removal and the
+\* order must not depend on it): a few patterns over few ground elements, lengths 13, 16 and 33
+G3 == <<a, b, I(1)>>
+Pattern(m, i) == CASE m = 1 -> (IF i % 2 = 0 THEN a ELSE b)
+                   [] m = 2 -> G3[((i * 7) % 3) + 1]
+                   [] m = 3 -> (IF i = 1 THEN b ELSE a)
+                   [] m = 4 -> G3[((i \div 5) % 3) + 1]
+                   [] m = 5 -> (IF i % 4 = 0 THEN MkList(<<a, b>>) ELSE IF i % 4 = 1 THEN MkList(<<a>>) ELSE C("f", <<a>>))
+LongLists == { [i \in 1..n |-> Pattern(m, i)] : n \in {13, 16, 33}, m \in 1..5 }
+Init == l \in UNION { [1..k -> Elems] : k \in 0..NL } \cup LongLists /\ done = FALSE
 Next == ~done /\ done' = TRUE /\ UNCHANGED l
 Spec == Init /\ [][Next]_<<l, done>>
 Dep == \E i, j \in 1..Len(l) : i < j /\ DepL(<< <<l[i], l[j]>> >>)
